@@ -24,7 +24,9 @@ DESIGN_REF = "DESIGN.md §4 C11"
 RULE = (
     "cases = (filter drawn from the 11 concrete event classes + FileSystemEvent + FileSystemMovedEvent: every singleton "
     "and pair in the exhaustive part, random larger subsets in the Hypothesis part; recursive flag; normal/full emitter; "
-    "history of 1-6 single ops with emphasis on boundary moves and on directories that arrive after the start).  "
+    "history of 1-6 single ops with emphasis on boundary moves and on directories that arrive after the start; symbolic "
+    "links to outside directories in the root, in a directory renamed later and in a tree moved in, with file and "
+    "directory activity in the link targets in every window).  "
     "non-trivial = a window contains a boundary move or an op inside a directory that arrived after the start, and the "
     "filter is not FileSystemEvent (total); distinct = digest of the case"
 )
@@ -74,9 +76,21 @@ def run_case(case):
         nwin = 0
         info = {"windows": 0}
         ops = [op for b in case["bursts"] for op in b if op[0] != "sleep"]
+        link_slots = sorted({slot for _, slot in cfg.get("links", [])})
+        for rel, slot in case.get("slot_links", []):
+            # a link inside a pre-built tree that will be moved in later
+            os.makedirs(os.path.join(s.out, slot), exist_ok=True)
+            os.symlink(os.path.join(s.out, slot), os.path.join(s.out, rel))
+            link_slots = sorted(set(link_slots) | {slot})
         for wi, op in enumerate(ops + [None]):
             if op is not None:
                 s.run_burst([op])
+            for slot in link_slots:
+                # activity in the targets of the links: outside the tree, a watch that does not follow links sees none of it
+                fsops._touch(os.path.join(s.out, slot, f"t{wi}"))
+                os.mkdir(os.path.join(s.out, slot, f"u{wi}"))
+                if wi:
+                    os.unlink(os.path.join(s.out, slot, f"t{wi - 1}"))
             sops, sg = sentinel_ops(wi)
             for sop in sops:
                 fsops.exec_op(sop, s.root, s.out)
@@ -192,13 +206,21 @@ def classes_of(case):
         cl.add("base-class-in-filter")
     cl.add("recursive" if case["cfg"]["recursive"] else "non-recursive")
     cl.add("full" if case["cfg"].get("full") else "normal")
+    if case["cfg"].get("links"):
+        cl.add("symlinked-directory-at-start")
+    if case.get("slot_links"):
+        cl.add("symlinked-directory-moved-in")
     return nt, sorted(cl)
 
 
 # a fixed history that exercises creation, writes, moves across the boundary and a directory that arrives later
 FIXED = {
-    "init": [["mkdir", "a"], ["create", "a/b"], ["create", "b"], ["prebuild", "o1", [["a", "f"], ["b", "d"]], "d"]],
-    "bursts": [[["mkdir", "c"]], [["create", "c/a"]], [["move_in", "o1", "c/b"]], [["write", "c/b/a"]], [["rename", "b", "c/c"]], [["move_out", "a", "o9"]], [["unlink", "c/a"]], [["rmtree", "c"]]],
+    "init": [["mkdir", "a"], ["create", "a/b"], ["create", "b"], ["mkdir", "ab"], ["prebuild", "o1", [["a", "f"], ["b", "d"]], "d"]],
+    "bursts": [[["mkdir", "c"]], [["create", "c/a"]], [["move_in", "o1", "c/b"]], [["write", "c/b/a"]], [["rename", "b", "c/c"]], [["rename", "ab", "c/ab"]], [["move_out", "a", "o9"]], [["unlink", "c/a"]], [["rmtree", "c"]]],
+    # links to directories outside the tree: in the root and in a directory that is renamed later (both present at
+    # start), and inside the tree that is moved in
+    "links": [["L0", "lt0"], ["ab/L1", "lt1"]],
+    "slot_links": [["o1/b/L2", "lt2"]],
 }
 
 
@@ -214,6 +236,8 @@ def exhaustive_filters():
 @st.composite
 def cases(draw, tier):
     cfg = {"recursive": draw(st.sampled_from([True, True, False])), "full": draw(st.sampled_from([False, False, True]))}
+    if draw(st.booleans()):
+        cfg["links"] = [["L0", "lt0"]]
     flt = draw(st.lists(st.sampled_from(CONCRETE + BASES), min_size=1, max_size=5, unique=True))
     opts = {"max_bursts": 5, "max_ops": 1, "sleeps": False, "makedirs": False, "weights": {"mkdir": 6, "move_in": 8, "move_out": 6, "create": 5, "write": 3, "rename": 6, "read": 1, "chmod": 2}}
     h = draw(fsops.histories(opts))
@@ -244,7 +268,7 @@ def run_shard(spec):
                     if tier == "quick" and len(flt) == 2 and (k // NSH) % 4 != seed % 4:
                         st_.exhaustive = False
                         continue
-                    case = {"cfg": {"recursive": rec, "full": full}, "filter": flt, "init": FIXED["init"], "bursts": FIXED["bursts"]}
+                    case = {"cfg": {"recursive": rec, "full": full, "links": FIXED["links"]}, "filter": flt, "init": FIXED["init"], "bursts": FIXED["bursts"], "slot_links": FIXED["slot_links"]}
                     n += 1
                     try:
                         info = run_case(case)
